@@ -598,8 +598,9 @@ def jump_schedules():
     right after the request, or after further protects that store nothing; the very request is
     replayed to the reloaded context, followed by Echo recovery, a clean stop and another crash."""
     out = []
-    for w, (cs, cl) in ((32, (10, 10000)), (2, (1, 4)), (5, (3, 8))):
-        jumps = [2 * w - 2, 2 * w - 1, 2 * w, 3 * w + 7] + ([5000, 2**20 + 3] if w == 32 else [])
+    for w, (cs, cl) in ((32, (10, 10000)), (2, (3, 8))):
+        # (window 2 as in the model, whose simulated behaviours skip 2, 3, 4 numbers as well)
+        jumps = [2 * w - 2, 2 * w - 1, 2 * w] + ([3 * w + 7, 5000, 2**20 + 3] if w == 32 else [])
         heads = [
             ([{"op": "load"}], 0),
             ([{"op": "load"}, {"op": "unprotect", "n": 0}, {"op": "unprotect", "n": 1}, {"op": "protect", "count": 2}, {"op": "clean"}, {"op": "load"}], 0),
@@ -640,6 +641,8 @@ def boundary_schedules(rng, count):
                 n = peer_next + rng.choice([0, 1, 62, 63, 64, 2**20])
                 peer_next = n + 1
                 ops.append({"op": "unprotect", "n": n, "echo": rng.choice(["none", "fresh"]), "crash": rng.choice([None, None, 0, 1, 2, 3, 4])})
+                if rng.random() < 0.5:
+                    ops += [{"op": "crash"}, {"op": "load"}, {"op": "unprotect", "n": n}]
             ops.append(rng.choice([{"op": "crash"}, {"op": "clean"}, {"op": "clean", "crash": rng.randint(0, 4)}, {"op": "protect", "count": 2}]))
             ops.append({"op": "load"})
         ops.append({"op": "protect", "count": k + 3})
@@ -829,25 +832,44 @@ def work(rep, args):
         import threading
         import time as _time
 
-        box = {"mc": []}
+        box = {}
         t_start = _time.time()
         phases = {}
 
-        def run_mc():
-            for i, consts in enumerate(mc_runs):
-                wd.write("SP_mc%d.cfg" % i, MC_CFG % consts)
-                r = tlc.run(wd, "SeqPersist.tla", "SP_mc%d.cfg" % i, timeout=1800 if quick else 3400, workers=max(2, (_os.cpu_count() or 4) - 4))
-                box["mc"].append(r)
-                if not r.ok:
-                    break
-            phases["model_checking_done_at"] = round(_time.time() - t_start, 1)
+        nworkers = max(2, (_os.cpu_count() or 4) - 4)
+        share = [nworkers - max(1, nworkers // 4), max(1, nworkers // 4)]  # the second run is the small one
 
-        th = threading.Thread(target=run_mc)
-        th.start()
+        def run_mc(i):
+            wd.write("SP_mc%d.cfg" % i, MC_CFG % mc_runs[i])
+            box["mc"][i] = tlc.run(wd, "SeqPersist.tla", "SP_mc%d.cfg" % i, timeout=1800 if quick else 3400, workers=share[i])
+            phases["model_check_%d_done_at" % i] = round(_time.time() - t_start, 1)
+
+        box["mc"] = [None] * len(mc_runs)
+        ths = [threading.Thread(target=run_mc, args=(i,)) for i in range(len(mc_runs))]
+        for th in ths:
+            th.start()
         wd.write("SP_sim.cfg", SIM_CFG)
         simdir = wd.file("sim")
         _os.makedirs(simdir)
-        sim = tlc.run(wd, "SeqPersist.tla", "SP_sim.cfg", workers=1, timeout=900, simulate="file=%s/tr,num=%d" % (simdir, nsim), depth=70, seed=args.seed + 1)
+
+        def run_sim():
+            box["sim"] = tlc.run(wd, "SeqPersist.tla", "SP_sim.cfg", workers=1, timeout=900, simulate="file=%s/tr,num=%d" % (simdir, nsim), depth=70, seed=args.seed + 1)
+
+        ths_sim = threading.Thread(target=run_sim)
+        ths_sim.start()
+        # while TLC generates behaviours, the schedules that do not depend on them are driven
+        syst = systematic_schedules()
+        jumps = jump_schedules()
+        static = syst + jumps + boundary_schedules(rng, nbound)
+        for i in range(nrand):
+            static.append(random_schedule(rng, long_run=(i < (1 if quick else 6))))
+        t0 = _time.time()
+        static_results = run_all(static)
+        phases["driving_the_implementation"] = round(_time.time() - t0, 1)
+        ths_sim.join()
+        sim = box.get("sim")
+        if sim is None:
+            raise MachineryError("SeqPersist simulation did not run")
         tlc.need_ok_run(sim, "SeqPersist simulation")
         behaviours = tlc.read_sim_traces(_os.path.join(simdir, "tr"))
         phases["simulation"] = round(sim.wall, 1)
@@ -855,25 +877,21 @@ def work(rep, args):
         n_sim = len(scheds)
         atmax = scaled_max_schedules(behaviours)
         scheds += atmax
-        syst = systematic_schedules()
-        scheds += syst
-        jumps = jump_schedules()
-        scheds += jumps
-        scheds += boundary_schedules(rng, nbound)
-        for i in range(nrand):
-            scheds.append(random_schedule(rng, long_run=(i < (1 if quick else 6))))
         t0 = _time.time()
         results = run_all(scheds)
-        phases["driving_the_implementation"] = round(_time.time() - t0, 1)
+        phases["driving_the_implementation"] = round(phases["driving_the_implementation"] + _time.time() - t0, 1)
+        scheds += static
+        results += static_results
         for s, res in zip(scheds, results):
             if "error" in res:
                 raise MachineryError("driver failed on schedule %s\n%s" % (json.dumps(s)[:600], res["error"]))
         t0 = _time.time()
         validated, ndrift = validate_and_report(rep, wd, scheds, results)
         phases["trace_validation"] = round(_time.time() - t0, 1)
-        th.join()
+        for th in ths:
+            th.join()
         mcs = box["mc"]
-        if not mcs:
+        if None in mcs:
             raise MachineryError("SeqPersist model check did not run")
         for i, mc in enumerate(mcs):
             tlc.need_ok_run(mc, "SeqPersist model check %d" % i)
@@ -889,8 +907,6 @@ def work(rep, args):
                 rep.notes.append("model check %d reported %s; counterexample replayed on the implementation" % (i, mc.violated))
                 if not rep.violations:
                     raise MachineryError("SeqPersist model violates %s but the counterexample does not reproduce on the implementation" % mc.violated)
-        if len(mcs) != len(mc_runs):
-            raise MachineryError("SeqPersist: %d of %d model-check runs were carried out" % (len(mcs), len(mc_runs)))
         # what the real histories exercised
         crashes = {}
         counters = {"issued": 0, "refused": 0, "accept": 0, "reject": 0, "load": 0, "clean_done": 0, "idle_crash": 0, "accept_by_echo_after_unclean_stop": 0, "load_unknown_window": 0, "load_known_window": 0}
